@@ -404,7 +404,37 @@ def rule_normalised_receiver(ctx: Ctx) -> None:
         ctx.ok_abstract("metric.receiver", "no metric flattens a separately named copy (they rebind the parameter itself)")
 
 
+def rule_depth_longest(ctx: Ctx) -> None:
+    """depth.longest: the depth of a node is the length of the LONGEST chain of operations before it: `_max_depth` takes the maximum over all
+    predecessors of their own depth, plus one (recursion / memoised recursion / networkx's longest path).  A layer-by-layer walk that skips
+    nodes already seen computes the breadth-first distance instead, which is shorter whenever a node is reachable both directly and through
+    a longer chain (CNOT; H; CNOT on the same pair: depth 3, not 2)."""
+    repo = ctx.repo
+    DAGF = "graphiq/circuit/circuit_dag.py"
+    m = repo.module(DAGF)
+    fn = repo.anchor(DAGF, "CircuitDAG._max_depth")
+    ctx.touch(m, fn)
+    recursive = [c for c in calls_in(fn) if call_name(c) == "self._max_depth"]
+    has_max_plus = any(isinstance(b, ast.BinOp) and isinstance(b.op, ast.Add) and norm(b.right) == "1" and isinstance(b.left, ast.Call) and call_name(b.left) == "max"
+                       for b in ast.walk(fn))
+    longest_api = [c for c in calls_in(fn) if (call_attr(c) or "") in ("dag_longest_path_length", "dag_longest_path")]
+    # a 'visited' set: a name that gets .add(x) and is tested with `x not in name`
+    adders = {norm(c.func.value) for c in calls_in(fn) if call_attr(c) == "add"}
+    pruned = [x for x in ast.walk(fn) if isinstance(x, ast.Compare) and len(x.ops) == 1 and isinstance(x.ops[0], ast.NotIn) and norm(x.comparators[0]) in adders]
+    if pruned and not recursive:
+        ctx.fail("depth.longest", m, pruned[0],
+                 f"CircuitDAG._max_depth walks the predecessors layer by layer and skips nodes already seen (`{short(pruned[0])}`): that is the "
+                 f"breadth-first distance to the furthest ancestor, not the longest chain — a node reachable both directly and through a longer "
+                 f"chain is counted at the shorter distance (CNOT(e0,e1); H(e0); CNOT(e0,e1) gets depth 2 instead of 3)",
+                 func="CircuitDAG._max_depth", construct="_max_depth: breadth-first walk with a visited set")
+    elif (recursive and has_max_plus) or longest_api:
+        ctx.ok("depth.longest", m, fn, what="depth = 1 + max over predecessors (longest chain)")
+    else:
+        raise AnalysisError("CircuitDAG._max_depth: neither the max-over-predecessors recursion nor a longest-path call was recognised")
+
+
 def run(ctx: Ctx) -> None:
+    rule_depth_longest(ctx)
     from .c12 import rule_register_depth_paired
     rule_register_depth_paired(ctx)  # per-register depth needs one depth entry per register
     rule_normalised_receiver(ctx)
@@ -435,7 +465,18 @@ def _depth_memo(src: str) -> str:
     return src.replace(b, "        if root_node not in self._depth_memo:\n            self._depth_memo[root_node] = max(depth) + 1\n        return self._depth_memo[root_node]\n")
 
 
+def _bfs_depth(src: str) -> str:
+    a = "        for node in connected_nodes:\n            depth.append(self._max_depth(node))\n        return max(depth) + 1\n"
+    if src.count(a) != 1:
+        raise LookupError("knock-out anchor text missing")
+    b = ("        seen = {root_node}\n        layer = connected_nodes\n        d = 0\n        while layer:\n            nxt = []\n"
+         "            for node in layer:\n                for pre in self.dag.predecessors(node):\n                    if pre not in seen:\n"
+         "                        seen.add(pre)\n                        nxt.append(pre)\n            d += 1\n            layer = nxt\n        return d - 1\n")
+    return src.replace(a, b)
+
+
 KNOCKOUTS = [
+    Knockout("depth-breadth-first", "graphiq/circuit/circuit_dag.py", _bfs_depth, "depth.longest", "breadth-first"),
     Knockout("emit-depth-history-from-original", METRICS, sub_once("            e_depth[e_i] = len(c.reg_gate_history(reg=e_i)[1]) - 2", "            e_depth[e_i] = len(circuit.reg_gate_history(reg=e_i)[1]) - 2"), "metric.receiver", "un-flattened circuit"),
     Knockout("depth-memo-never-reset", "graphiq/circuit/circuit_dag.py", _depth_memo, "memo.sound", "key does not determine"),
     Knockout("emit-depth-offset", METRICS, sub_once("e_depth[e_i] = len(c.reg_gate_history(reg=e_i)[1]) - 2", "e_depth[e_i] = len(c.reg_gate_history(reg=e_i)[1]) - 1"), "metric.source", "offset"),
